@@ -545,6 +545,9 @@ func rulesC02(w *World, r *Report) {
 		r.Check(okGate, "C02.R3", "propagate:xff-gate", w.instrPos(putCall), "float32 gate known/all >= xFilesFactor guards the write", why)
 		// nothing else may skip the recomputation of a touched coarser slot
 		r.Rule("C02.R6", "every touched coarser slot is recomputed: the slot write in propagate is guarded by nothing but the non-empty test on the known values and the xFilesFactor gate", 1)
+		if pf := fn(w.Lib, "Whisper.propagate"); pf != nil {
+			ruleLoopGoesOn(w, r, "C02.R6", "Whisper.propagate:every-slot", firstLoopCall(pf, fn(w.Lib, "Whisper.fetchRawPoints")), "every coarser slot covering a written point is recomputed; a slot without known finer values is skipped, not the rest of the work-list")
+		}
 		var extra []string
 		for _, g := range blockGuards(w, putCall.Block()) {
 			if (strings.Contains(g, "XFilesFactor(") || strings.Contains(g, ".xFilesFactor")) || isLenEmptinessTest(g, `whispertool\.filterValidValues\(.*\)`) || isLenEmptinessTest(g, `p2`) {
@@ -801,6 +804,8 @@ func rulesC03(w *World, r *Report) {
 	ruleExtractPointsDD(w, r, "C03.R3", extract)
 	r.Rule("C03.R5", "no in-range point is lost inside the per-archive writer: archiveUpdateMany aligns and stores every point of the batch it is given", 2)
 	ruleWriterWritesAll(w, r, "C03.R5")
+	ruleLoopGoesOn(w, r, "C03.R5", "Whisper.UpdatePointsForArchive:every-archive", firstLoopCall(upm, extract), "an archive that gets no point of the batch is skipped, not the coarser archives after it")
+	ruleLoopGoesOn(w, r, "C03.R5", "Whisper.archiveUpdateMany:every-point", firstLoopCall(aum, fn(w.Lib, "Whisper.putPointAt")), "every aligned point of the batch is stored")
 	// R4 routing in UpdatePointsForArchive
 	for _, c := range callsTo(upm, aum) {
 		ex := newExprCtx(w)
